@@ -3,6 +3,7 @@ package database
 import (
 	"context"
 	"fmt"
+	"reflect"
 	"sync"
 )
 
@@ -248,10 +249,23 @@ func sameID(stored, lookup interface{}) bool {
 	if stored == nil || lookup == nil {
 		return false
 	}
-	if stored == lookup {
+	if valuesEqual(stored, lookup) {
 		return true
 	}
 	return fmt.Sprint(stored) == fmt.Sprint(lookup)
+}
+
+// valuesEqual compares a stored field with a lookup value. Arrays and objects
+// (slices and maps) cannot be compared with ==: the comparison would panic, so
+// values of such a type never match.
+func valuesEqual(a, b interface{}) bool {
+	if a == nil || b == nil {
+		return a == nil && b == nil
+	}
+	if !reflect.TypeOf(a).Comparable() || !reflect.TypeOf(b).Comparable() {
+		return false
+	}
+	return a == b
 }
 
 // Get retrieves a record by ID
@@ -320,7 +334,7 @@ func (m *MockTableHandler) Count(column string, value interface{}) int64 {
 
 	count := int64(0)
 	for _, record := range m.db.data[m.name] {
-		if record[column] == value {
+		if valuesEqual(record[column], value) {
 			count++
 		}
 	}
@@ -334,7 +348,7 @@ func (m *MockTableHandler) CountWhere(column1 string, value1 interface{}, column
 
 	count := int64(0)
 	for _, record := range m.db.data[m.name] {
-		if record[column1] == value1 && record[column2] == value2 {
+		if valuesEqual(record[column1], value1) && valuesEqual(record[column2], value2) {
 			count++
 		}
 	}
@@ -348,7 +362,7 @@ func (m *MockTableHandler) Filter(column string, value interface{}) []interface{
 
 	result := make([]interface{}, 0)
 	for _, record := range m.db.data[m.name] {
-		if record[column] == value {
+		if valuesEqual(record[column], value) {
 			result = append(result, record)
 		}
 	}
